@@ -20,7 +20,7 @@ from __future__ import annotations
 import ast
 import itertools
 from dataclasses import dataclass, field
-from typing import Any, Dict, List, Optional, Tuple, Union
+from typing import Any, Dict, List, Optional, Set, Tuple, Union
 
 from .model import Program, CallGraph, FuncInfo, ClassInfo, TypeEnv, Module, strip_opt, ANY, t_cls
 from .report import AnalysisError
@@ -179,10 +179,12 @@ class Src:
     base: Any                    # Sym | TList
     var: Sym
     filters: List[Cond] = field(default_factory=list)
+    order: str = ''              # '' (source order) | 'reversed' | 'sorted'
 
     def __repr__(self):
         f = (' if ' + ' and '.join(repr(c) for c in self.filters)) if self.filters else ''
-        return f'{self.var!r} in {self.base!r}{f}'
+        b = f'{self.order}({self.base!r})' if self.order else repr(self.base)
+        return f'{self.var!r} in {b}{f}'
 
 
 @dataclass
@@ -286,11 +288,14 @@ _FALLTHROUGH = _Fall()
 class Evaluator:
     MAX_DEPTH = 14
 
-    def __init__(self, prog: Program, cg: CallGraph):
+    def __init__(self, prog: Program, cg: CallGraph, atomic_classes: Tuple[str, ...] = ()):
         self.prog = prog
         self.cg = cg
+        # symbolic values of these classes are rendered as one hole instead of inlining their __str__
+        self.atomic_classes = set(atomic_classes)
         self.opaque_log: List[str] = []
         self.n_inlined = 0
+        self.visited: Set[str] = set()           # fq names of the functions evaluated (inlined) so far
         self.lookups: Dict[str, tuple] = {}      # decl symbol root -> (function, name value, scope value, kind type)
 
     # -- symbol helpers -------------------------------------------------------------------------------------
@@ -310,6 +315,7 @@ class Evaluator:
         if depth > self.MAX_DEPTH:
             return self.opaque(f'inlining depth exceeded at {fn.qualname}')
         self.n_inlined += 1
+        self.visited.add(fn.fq)
         env: Dict[str, Any] = dict(closure or {})
         a = fn.node.args
         pos = list(a.posonlyargs) + list(a.args)
@@ -586,6 +592,12 @@ class Evaluator:
 
     def make_src(self, it: Any, target: ast.AST, fn: FuncInfo, name_hint: str = 'x') -> Optional[Src]:
         name = target.id if isinstance(target, ast.Name) else name_hint
+        if isinstance(it, tuple) and it and it[0] == 'ordered':
+            inner_src = self.make_src(it[2], target, fn, name_hint)
+            if inner_src is None:
+                return None
+            inner_src.order = it[1] if not inner_src.order else f'{it[1]}+{inner_src.order}'
+            return inner_src
         if isinstance(it, Sym):
             et = TypeEnv.elem_type(it.typ)
             return Src(it, self.new_sym(name, et), [])
@@ -595,7 +607,7 @@ class Evaluator:
                     isinstance(it.items[0].items[0], Sym) and it.items[0].items[0].key() == it.items[0].src.var.key():
                 inner = it.items[0].src
                 var = self.new_sym(name, inner.var.typ)
-                return Src(inner.base, var, [self.subst_cond(c, inner.var, var) for c in inner.filters])
+                return Src(inner.base, var, [self.subst_cond(c, inner.var, var) for c in inner.filters], inner.order)
             return Src(it, self.new_sym(name, ANY), [])
         return None
 
@@ -951,6 +963,8 @@ class Evaluator:
                     return self.call_function(m, [b], {}, depth + 1, self_val=a)
         if isinstance(a, tuple) and a and a[0] == 'nsconcat':
             return ('nsconcat', a, b)
+        if isinstance(a, TBlock) or isinstance(b, TBlock):
+            return TBlock(self.block_items(a, depth) + self.block_items(b, depth))
         return self.opaque(f'addition of {type(a).__name__} and {type(b).__name__}')
 
     def comprehension(self, e: Union[ast.ListComp, ast.GeneratorExp], env: Dict[str, Any], fn: FuncInfo, depth: int) -> Any:
@@ -1018,6 +1032,8 @@ class Evaluator:
             t = strip_opt(v.typ)
             if t[0] == 'cls' and t[1] in self.prog.classes:
                 cls = self.prog.classes[t[1]]
+                if cls.name in self.atomic_classes or self.prog.is_subclass(cls.fq, 'dznpy.text_gen.TextBlock'):
+                    return TStr([Hole(v)])
                 if cls.name == 'NamespaceIds':
                     return TStr([FqnS(v, 'dotted')])
                 m = self.prog.lookup_method(cls, '__str__')
@@ -1128,6 +1144,12 @@ class Evaluator:
             return [AltL(content.cond, self.block_items(content.a, depth), self.block_items(content.b, depth))]
         if isinstance(content, TStr):
             return [content]
+        if isinstance(content, Sym):
+            t = strip_opt(content.typ)
+            if t[0] == 'list':
+                var = self.new_sym('item', TypeEnv.elem_type(t))
+                return [RepL(Src(content, var, []), [TStr([Hole(var)])])]
+            return [TStr([Hole(content)])]
         if isinstance(content, TObj):
             # objects are stringified by the text layer (Comment / TextBlock subclasses keep their identity)
             if self.prog.is_subclass(content.cls.fq, 'dznpy.text_gen.TextBlock'):
@@ -1197,6 +1219,8 @@ class Evaluator:
             return args[0] if isinstance(args[0], TList) else TList(self.as_items(args[0]))
         if name == 'isinstance':
             return Cond('opaque', ('isinstance',))
+        if name in ('sorted', 'reversed') and args and not kwargs and isinstance(args[0], (Sym, TList)):
+            return ('ordered', name, args[0])
         if name == 'sorted' and args:
             return self.opaque('sorted()')
         if name == 'print':
@@ -1234,9 +1258,18 @@ class Evaluator:
                 if meth in ('strip', 'rstrip', 'lstrip'):
                     return recv          # layout only
                 return TStr([OpaqueS(f'str.{meth}')])
+            if meth in ('startswith', 'endswith') and len(e.args) == 1:
+                arg = self.eval(e.args[0], env, fn, depth)
+                c, a = recv.const(), arg.const() if isinstance(arg, TStr) else None
+                if c is not None and a is not None:
+                    return TRUE if getattr(c, meth)(a) else FALSE
+                return Cond(meth, (self.cond_leaf(recv), self.cond_leaf(arg)))
             if meth == 'startswith':
                 return Cond('opaque', ('startswith',))
             return self.opaque(f'str.{meth}')
+        if isinstance(recv, Sym) and strip_opt(recv.typ)[0] in ('str', 'any') and meth in ('startswith', 'endswith') \
+                and len(e.args) == 1:
+            return Cond(meth, (recv, self.cond_leaf(self.eval(e.args[0], env, fn, depth))))
         if isinstance(recv, Sym) and strip_opt(recv.typ)[0] in ('str', 'any') and \
                 meth in ('upper', 'lower', 'strip', 'rstrip', 'lstrip', 'capitalize', 'title') and not e.args:
             return TStr([Hole(recv, f'.{meth}()')])
@@ -1282,6 +1315,12 @@ class Evaluator:
                     out = out + (TStr() if first else sep) + self.to_str(x, depth)
                 first = False
             return out
+        if isinstance(seq, tuple) and seq and seq[0] == 'ordered':
+            inner = self.join(sep, seq[2], depth)
+            if len(inner.parts) == 1 and isinstance(inner.parts[0], RepS):
+                r = inner.parts[0]
+                return TStr([RepS(r.sep, r.elem, Src(r.src.base, r.src.var, r.src.filters, seq[1] + ('+' + r.src.order if r.src.order else '')))])
+            return TStr([OpaqueS(f'join of {seq[1]}()')])
         if isinstance(seq, Sym):
             var = self.new_sym('item', TypeEnv.elem_type(seq.typ))
             return TStr([RepS(sep, TStr([Hole(var)]), Src(seq, var, []))])
